@@ -83,6 +83,16 @@ def lemma(res, name, build, detail='', timeout_ms=20000, decisive=False):
     return o
 
 
+def ord_lex(res, pid):
+    """LEMMA ORD-LEX: the engine adds, for every pair of ordinals whose year / month / day it reads, the fact that the
+    ordinals are ordered as their decompositions are (pv.sorts.ord_lex_instance); proved here from the closed form."""
+    from . import sorts
+    return lemma(res, f'{pid}.lemma.ORD-LEX', sorts.ord_lex_lemma,
+                 'valid (y1,m1,d1) <lex valid (y2,m2,d2) implies ord(y1,m1,d1) < ord(y2,m2,d2) over the closed form of '
+                 'date.toordinal (which c15k5 conformance-checks against CPython); instances of the contrapositive are what '
+                 'the symbolic executor assumes', timeout_ms=60000)
+
+
 def monitor(res, ctx, module, timeout=1500, drop=None):
     """Run the native bounded monitor pv/nat/<module>.py (function run(tier, seed)); each returned check becomes a
     Bounded (K4: never counted as proved)."""
